@@ -52,7 +52,7 @@ def frontend_histories(rng, tier):
                 for k in range(depth):
                     nops.append("send %s %d %d %s %s" % (r.hex(r.below(4)), r.range(1, 100), r.below(2), machist.draws(r, 30), r.choice(["txing", "txdone"])))
                     nops += ["phy txdone", "timeout", r.choice(["timeout", "phy rx" + r.hex(r.range(12, 30))]), "timeout", "timeout", "timeout"]
-                for fault in ["-"] + list(range(0, 8 * depth, 1 if tier == "thorough" else 2)):
+                for fault in ["-"] + list(range(0, 8 * depth, 1 if tier == "thorough" else 2)) + ["%dx%d" % (k, n) for k in range(0, 8 * depth, 3) for n in (2, 40)]:
                     lines.append("ndev r=%d fault=%s %s | %s | fcnt" % (region, fault, sess, " | ".join(nops)))
     return lines
 
